@@ -447,8 +447,11 @@ def inherit_case(rnd, cid, auto=None, rich=False):
                 # a block nested in a statement: inside an autoescape block it takes that block's mode; at the
                 # top level of a child template it is a definition only, whatever it is nested in
                 k = rnd.random()
+                if rnd.random() < 0.5:
+                    # a scoped block is rendered with a derived context, which shares the run-time autoescape mode
+                    blk = dict(blk, scoped=True)
                 if k < 0.5:
-                    body.append(J.Autoescape(rnd.choice([C(True), C(False), N("c")]), [blk] + ([J.Out(N("s"))] if rnd.random() < 0.5 else [])))
+                    body.append(J.Autoescape(rnd.choice([C(True), C(False), N("c"), N("c")]), [blk] + ([J.Out(N("s"))] if rnd.random() < 0.5 else [])))
                 elif k < 0.75:
                     body.append(J.With([("w", C(1))], [blk, J.Text("W")]))
                 else:
